@@ -14,9 +14,12 @@
              (base + extra bits) followed by a distance symbol 0..29 (base + extra bits); the copy may overlap
              the bytes it produces.
 
-   The output is accumulated newest byte first (rev_append is the linear-time reversal).  Recursions that follow the data carry a fuel of one more than the
-   number of unread bits (every step reads at least one bit); [inflate] itself has no fuel parameter, and running out
-   of fuel is the result None like every other failure -- the theorems state [= Some ...]. *)
+   The output is accumulated newest byte first (rev_append is the linear-time reversal).  Recursions that follow the
+   data carry a fuel: [inflate] starts [blocks] with one more than the number of bits of the deflate data, [blocks]
+   spends one unit per block (a block takes at least 3 bits) and lends what it has left to the loops inside the block,
+   which spend one unit per symbol (a symbol takes at least 1 bit) -- so the fuel always exceeds the number of unread
+   bits.  [inflate] itself has no fuel parameter, and running out of fuel is the result None like every other
+   failure -- the theorems state [= Some ...]. *)
 From LV Require Import Base.Bytes Spec.ZlibStoredSpec.
 
 Local Open Scope N_scope.
@@ -56,8 +59,9 @@ Fixpoint getbits (n : nat) (s : bstream) : option (N * bstream) :=
 Definition bits_left (s : bstream) : nat := (length (fst s) + 8 * length (snd s))%nat.
 
 (* ---------- canonical Huffman codes (3.2.2) ---------- *)
-(* for the code lengths 1, 2, ..., 15: the first code of that length and its symbols in increasing order *)
-Definition huff := list (N * list N).
+(* for the code lengths 1, 2, ..., 15: the first code of that length, the number of codes and their symbols in
+   increasing order *)
+Definition huff := list (N * N * list N).
 
 Fixpoint syms_with (len : N) (lens : list N) (i : N) : list N :=
   match lens with
@@ -70,7 +74,8 @@ Fixpoint mk_huff (n : nat) (len first : N) (lens : list N) : huff :=
   | O => []
   | S n' =>
     let syms := syms_with len lens 0 in
-    (first, syms) :: mk_huff n' (len + 1) ((first + N.of_nat (length syms)) * 2) lens
+    let count := N.of_nat (length syms) in
+    (first, count, syms) :: mk_huff n' (len + 1) ((first + count) * 2) lens
   end.
 
 Definition huffman (lens : list N) : huff := mk_huff 15 1 0 lens.
@@ -78,12 +83,12 @@ Definition huffman (lens : list N) : huff := mk_huff 15 1 0 lens.
 Fixpoint decode_sym (h : huff) (code : N) (s : bstream) : option (N * bstream) :=
   match h with
   | [] => None
-  | (first, syms) :: h' =>
+  | (first, count, syms) :: h' =>
     match getbit s with
     | None => None
     | Some (b, s1) =>
       let code' := 2 * code + (if b then 1 else 0) in
-      if (first <=? code') && (code' <? first + N.of_nat (length syms)) then
+      if (first <=? code') && (code' <? first + count) then
         match nth_error syms (N.to_nat (code' - first)) with
         | Some x => Some (x, s1)
         | None => None
@@ -216,7 +221,7 @@ Fixpoint read_lens (fuel : nat) (h : huff) (total : nat) (acc : list N) (s : bst
       end
     end.
 
-Definition dynamic_block (s : bstream) (out : bytes) : option (bytes * bstream) :=
+Definition dynamic_block (fuel : nat) (s : bstream) (out : bytes) : option (bytes * bstream) :=
   match getbits 5 s with
   | None => None
   | Some (hlit, s1) =>
@@ -231,10 +236,10 @@ Definition dynamic_block (s : bstream) (out : bytes) : option (bytes * bstream) 
         | Some (vals, s4) =>
           let nlit := N.to_nat (hlit + 257) in
           let ndist := N.to_nat (hdist + 1) in
-          match read_lens (S (bits_left s4)) (huffman (cl_lens vals)) (nlit + ndist) [] s4 with
+          match read_lens fuel (huffman (cl_lens vals)) (nlit + ndist) [] s4 with
           | None => None
           | Some (lens, s5) =>
-            codes_loop (S (bits_left s5)) (huffman (firstn nlit lens)) (huffman (skipn nlit lens)) s5 out
+            codes_loop fuel (huffman (firstn nlit lens)) (huffman (skipn nlit lens)) s5 out
           end
         end
       end
@@ -266,8 +271,8 @@ Fixpoint blocks (fuel : nat) (s : bstream) (out : bytes) : option (bytes * bstre
       | None => None
       | Some (btype, s2) =>
         let r := if btype =? 0 then stored_block_in s2 out
-                 else if btype =? 1 then codes_loop (S (bits_left s2)) (huffman FIXED_LIT) (huffman FIXED_DIST) s2 out
-                 else if btype =? 2 then dynamic_block s2 out
+                 else if btype =? 1 then codes_loop fuel (huffman FIXED_LIT) (huffman FIXED_DIST) s2 out
+                 else if btype =? 2 then dynamic_block fuel s2 out
                  else None in
         match r with
         | None => None
